@@ -20,11 +20,14 @@ Definition facts_as_modelled : bool :=
   && src_find_entry_activates_param              (* find_local: EParam -> EActive *)
   && src_push_tracks_frame_index                 (* push *)
   && src_pop_frame_throws_on_context_marker      (* pop_frame_n *)
-  && negb src_params_are_deactivated_somewhere   (* no resetParams call: finding K-C01-1, exec_ins Invoke *)
+  && negb src_params_deactivated_elsewhere       (* resetParams: nowhere (K-C01-1) or only where end_template has it *)
   && src_children_frame_iff_has_variables        (* exec_ins Block/Tmpl: has_decl *)
   && src_foreach_renews_frame_per_node           (* one Block per for-each iteration *)
   && src_apply_templates_marker_then_params && src_call_template_marker_then_params   (* exec_ins Invoke *)
   && src_param_default_only_when_not_passed.     (* exec_param *)
+
+(* which of the two modelled variants of template-instance end the source has (XsltVarsDefs.end_template) *)
+Definition reset_variant : bool := src_params_reset_when_template_frame_popped.
 
 Lemma facts_as_modelled_true : facts_as_modelled = true.
 Proof. reflexivity. Qed.
